@@ -301,7 +301,7 @@ func runL1(args []string) {
 		rep.Notes = append(rep.Notes, "degraded mode: hooks not available, the parser is observed through Prepare (accept/reject, error text) only")
 	}
 	rep.Rule = "queries from grammar skeletons, token soup, mutations of those and of the query literals in /repo's tests, splices and raw bytes; " +
-		"(comments where blanks may stand, sticky prefixes, leading expressions); each query also parsed with 1, 2 and 7 newlines in front and with the contents of its literals and comments blanked; " +
+		"(comments where blanks may stand, sticky prefixes, leading expressions, invisible prefixes such as a byte order mark, NUL bytes and the runes at the UTF-8 length boundaries, format verbs in column text, inputs inside calls under a plain alias); each query also parsed with 1, 2 and 7 newlines in front and with the contents of its literals and comments blanked; " +
 		"non-trivial = contains at least one SQLair expression node or is rejected by implementation or model; distinct by SHA-256 of the bytes"
 
 	r := rng.New(*seed)
